@@ -248,3 +248,30 @@ def run_unit_mix(P, rep, only=None, rule="R-UNITMIX"):
     if not bad:
         rep.ok(rule, "unit scan" + (" " + ",".join(only) if only else ""), "-", "%d comparisons/sums over unit-carrying values; none mixes characters with bytes" % n)
     rep.count(rule + ".ops", n)
+
+
+# ---------------------------------------------------------------------------------------
+# R-NOCLAMP.slice: an offset before the start of the input stays out of range
+
+def run_slice_window(P, rep, rule="R-NOCLAMP.slice"):
+    """canonicalize_slice caps the offset from above only (`min(offset, len)`) and turns a negative offset into `offset + len`:
+    it never folds an offset that reaches before the start onto 0 (`max(0, ..)`, `clamp`, `abs`, `rem_euclid`, wrapping arithmetic),
+    so `'abcd' | slice: -6, 3` selects nothing rather than a prefix."""
+    fns = P.by_key("liquid_lib::stdlib::filters::slice::canonicalize_slice")
+    if len(fns) != 1:
+        rep.anchor_missing(rule, "canonicalize_slice")
+        return
+    fn = fns[0]
+    bad = []
+    for bi, t in P.calls(fn):
+        f = t.get("f")
+        if f and f["id"].rsplit("::", 1)[1] in ("max", "clamp", "abs", "unsigned_abs", "rem_euclid", "wrapping_add", "wrapping_sub", "wrapping_neg",
+                                               "saturating_sub", "checked_rem_euclid", "max_by", "max_by_key"):
+            bad.append((f["name"], t["line"]))
+    rems = [(st[2]["op"], st[3]) for b in fn.blocks for st in b["s"] if st[0] == "a" and st[2]["k"] == "bin" and st[2]["op"] in ("Rem", "BitAnd")]
+    if bad or rems:
+        nm, line = (bad + rems)[0]
+        rep.viol(rule, "canonicalize_slice", P.where(fn, line),
+                 "the slice window is computed with `%s`: an offset before the start of the input is folded onto an existing position instead of selecting nothing" % nm)
+    else:
+        rep.ok(rule, "canonicalize_slice", P.where(fn), "offset capped from above only; negative offsets become offset + len; no lower clamp / wrap")
